@@ -1,6 +1,7 @@
 import Driver.Util
 import Faithful.Lib.Parsers
 import Faithful.Lib.ParsersCbor
+import Faithful.Lib.Hash
 open Drv Px
 
 /-! model side of the C12 line protocol: one answer line per op line, computed with the definitions
@@ -74,7 +75,16 @@ def answer (l : String) : String :=
      | .panic _ => "panic")
   | "open-idx" :: _ => "nopanic"
   -- bucketteer
-  | ["bkt", f, _] => cls (bkOpen (unhexT f))
+  | ["bkt", f, sig] =>
+    let file := unhexT f
+    (match (bkOpen file).outcome with
+     | .ok h =>
+       -- `Has(sig)`: prefix = first two bytes (little endian) of the 64-byte signature, hash = xxhash64(sig)
+       let s := (unhexT sig ++ List.replicate 64 0).take 64
+       let r := bkHas file h (B.unle (s.take 2)) (H.xxhash64 s).toNat
+       "ok " ++ (match r.outcome with | .ok true => "t" | .ok false => "f" | .err _ => "e" | .panic _ => "panic")
+     | .err _ => "err"
+     | .panic _ => "panic")
   -- blocktimeindex
   | ["bt", f, "get", slot] =>
     (match (btUnmarshal (unhexT f)).outcome with
